@@ -35,3 +35,6 @@ add("C16", "flow-sensitive field provenance on locally created schema objects (f
 add("C20", "canonical-formula extraction from each predicate closure's SSA (path-condition DNF, existential loop summaries, exact rune-interval evaluation of comparison DAGs) compared with a table frozen from the documentation and keyed by the issue code the same constructor reports",
     "Decides, exhaustively over the built-in tests, that each predicate closure computes exactly its documented predicate (operators, operand order, inclusive bounds, Equal vs ==, DeepEqual membership, ASCII classes). The grammars of the e-mail/UUID regular expressions and url.Parse are not decided; level 'other'.",
     "DESIGN.md section 4, C20")
+add("C17", "who-may-write + must-pass-through typestate of the negation flag, receiver field-effect sets of every builder method (through callees), locality of the Test value each TestOption is invoked on, sibling agreement of setCoercer",
+    "Decides that Not() is consumed by exactly the next interface test with the complementary wrapper and not_-prefixed code, that every builder method writes exactly the fields of its role unconditionally, that options only touch a call-local Test which is the one added, and the setCoercer convention. Random builder chains on inputs are not decided; level 'other'.",
+    "DESIGN.md section 4, C17")
